@@ -8,7 +8,7 @@ META = {
     "category": "proof",
     "text": "Kernel-checked theorems for EVERY sequence of output operations and EVERY per-call sink behaviour (accept all / k bytes / half / zero / Err of any kind incl. Interrupted): the bytes the sink accepted are a prefix of the string the plain render builds; a call at which the sink failed is the last call it sees; the API then returns WriteFailure whose source is exactly the sink's error (whatever include/super nesting was unwound), never Ok, never another kind, never a panic; without a sink failure result and bytes equal the plain render's; captured/discarded regions never reach the sink. The model is tied to /repo by running real templates (fixed set + generated: macros, call blocks, set/filter blocks, includes, imports, inheritance with super, recursive loops, autoescape, big values, custom objects) through Template::render_captured_to and State::render_block_to_write (direct, from a template function, with a custom formatter) into an instrumented io::Write that fails at every k-th write call with every behaviour; the REAL sequence of output operations of every render (feature-guarded hook verif_hooks::output: each write_str/write_char on the Output with the target it was routed to, begin/end capture with the captured value, include/super nesting) and the failure script are fed to the Lean model: the model's capture stack must route every real write where the engine did and pop the values the engine popped, and run(ops, sink) must reproduce the sink's calls, accepted bytes, checksums, log digest, result and the number of operations executed; the log of every failing run must be the clean log cut at the failing write; the log of the plain String render must equal the writer run's. A second family of programs is generated as terms of the model's structured layer (set/filter blocks, macros, includes, inheritance with super, loops, errors), unparsed to templates, and the big-step exec of the term is compared with the engine, its flattening with the real operation log. The property itself is evaluated on the real observations.",
     "design_ref": "DESIGN.md §3 C19",
-    "level_note": "Trusted: Lean kernel; hand transcription of output.rs (Output, WriteWrapper, take_err), std write_all, and the emit/capture/include/super skeleton of vm/mod.rs into MJ/Model/Output.lean. That the VM performs a sink-independent op sequence and stops at the first fmt::Error (every emit site propagates it) is validated, not proved about the Rust source: by the hook log (same operations for String and io::Write base writers; every failing run's log is a prefix of the clean log ending at the failing write) and the fault injection at every write call of every program. The hook's routing annotation is computed from the capture stack (the raw target pointer is covered only through the sink's calls). The harness builds minijinja with verif_hooks on (write_fmt is then routed piecewise through the logging write_str/write_char). Custom formatters / Object::render implementations that swallow fmt::Error are outside the property.",
+    "level_note": "Trusted: Lean kernel; hand transcription of output.rs (Output, WriteWrapper, take_err), std write_all, and the emit/capture/include/super skeleton of vm/mod.rs into MJ/Model/Output.lean. That the VM performs a sink-independent op sequence and stops at the first fmt::Error (every emit site propagates it) is validated, not proved about the Rust source: by the hook log (same operations for String and io::Write base writers; every failing run's log is a prefix of the clean log ending at the failing write) and the fault injection at every write call of every program. The hook's routing annotation is computed from the capture stack (the raw target pointer is covered only through the sink's calls). The harness builds minijinja with verif_hooks on (write_fmt is then routed piecewise through the logging write_str/write_char). Custom formatters / Object::render implementations that swallow fmt::Error are outside the property. Round 3: the Emit layer (write_escaped chunking, HtmlEscape pieces with the escape table regenerated from source, fast paths, user code failing by itself) is inside the model and compared piece by piece with the engine; all write call sites of the output/value-formatting code are regenerated from source, classified, and a non-propagating site fails a `decide` theorem; Interrupted-retry is a theorem; the sink-level streams are re-run against minijinja compiled WITHOUT verif_hooks and must equal the hooked build.",
 }
 
 
@@ -86,8 +86,8 @@ def run(r):
               "A case is non-trivial when it is distinct and the clean run makes at least one write call")
     r.assumptions = [
         "the sink honours io::Write::write's contract n <= buf.len() and does not answer Interrupted forever",
-        "the VM's sequence of output operations does not depend on the sink (it cannot observe it except through fmt::Error)",
-        "user supplied formatters and Object::render implementations propagate fmt::Error",
+        "std's fmt machinery (Formatter adapters, Display of numbers, DebugList/DebugMap) stops at the first fmt::Error — validated by failure injection at every piece, not modelled",
+        "user supplied formatters and Object::render implementations propagate the fmt::Error of the writer they are given",
     ]
     r.regen_tables(["C19_WRITE_SITES", "C19_WRITER_APIS", "C19_WRAPPER_SITES", "C19_SMALL_INT_LIMIT", "C19_UNHOOKED_BODIES", "HTML_ESCAPE_TABLE"])
     r.lean_prove("MJ.Props.C19", "MJ/Audit/C19.lean", extra_targets=["drive_c19"])
